@@ -224,10 +224,11 @@ def write_replay(pid, seed, index, plan, res, spent):
     name = '%s-%s-%s.json' % (pid, seed, index)
     path = os.path.join(REPLAY_DIR, name)
     with open(path, 'w') as f:
+        # ASCII only: plans may carry unpaired surrogates and other oddities
         json.dump({'property': pid, 'seed': seed, 'run': index,
                    'vclass': res['vclass'], 'detail': res['detail'],
                    'digest': res['digest'], 'minimiser_evaluations': spent,
-                   'plan': plan}, f, indent=1, ensure_ascii=False,
+                   'plan': plan}, f, indent=1, ensure_ascii=True,
                   sort_keys=True)
     return path
 
@@ -403,7 +404,7 @@ def finish(mod, batch, rule, assumptions, components, extra_cov=None,
     }
     os.makedirs(EVIDENCE_DIR, exist_ok=True)
     tmp = os.path.join(EVIDENCE_DIR, pid + '.json.tmp')
-    with open(tmp, 'w') as f:
+    with open(tmp, 'w', encoding='utf-8', errors='backslashreplace') as f:
         json.dump(ev, f, indent=1, ensure_ascii=False, sort_keys=True)
     os.replace(tmp, os.path.join(EVIDENCE_DIR, pid + '.json'))
     print('%s tier=%s seed=%s: %d plans judged, %d simulated process runs, '
